@@ -384,18 +384,48 @@ func (fr *frame) intIndex(idx Value, n int, what string) int {
 
 // intLen forces a non-negative length/bound to a concrete int; ok=false when out of [0,max].
 func (fr *frame) intBound(v Value, lo, hi int) (int, bool) {
+	return fr.intBoundT(v, nil, lo, hi)
+}
+
+// intBoundT checks lo <= v <= hi for an integer operand of static type t (nil:
+// signed) and concretises it; unsigned operands are compared as such.
+func (fr *frame) intBoundT(v Value, typ types.Type, lo, hi int) (int, bool) {
 	p := fr.g.p
+	unsigned := false
+	if typ != nil {
+		if b, ok := typ.Underlying().(*types.Basic); ok && b.Info()&types.IsUnsigned != 0 {
+			unsigned = true
+		}
+	}
 	if v.R == nil {
 		i := sext64(v.N, v.W)
+		if unsigned {
+			if v.W < 64 {
+				i = int64(v.N & (1<<v.W - 1))
+			} else if v.N > 1<<62 {
+				return 0, false
+			}
+		}
 		if i < int64(lo) || i > int64(hi) {
 			return int(i), false
 		}
 		return int(i), true
 	}
 	t := v.term()
-	ok := p.ts.And(p.ts.Sle(p.ts.Const(t.w, uint64(lo)), t), p.ts.Sle(t, p.ts.Const(t.w, uint64(hi))))
+	var ok *Term
+	if unsigned {
+		ok = p.ts.And(p.ts.Ule(p.ts.Const(t.w, uint64(lo)), t), p.ts.Ule(t, p.ts.Const(t.w, uint64(hi))))
+		if t.w < 64 && uint64(hi) >= 1<<t.w {
+			ok = p.ts.Ule(p.ts.Const(t.w, uint64(lo)), t)
+		}
+	} else {
+		ok = p.ts.And(p.ts.Sle(p.ts.Const(t.w, uint64(lo)), t), p.ts.Sle(t, p.ts.Const(t.w, uint64(hi))))
+	}
 	if !p.decideBool(ok) {
 		return 0, false
+	}
+	if unsigned {
+		return int(p.concretize(t)), true
 	}
 	return int(sext64(p.concretize(t), t.w)), true
 }
@@ -501,25 +531,30 @@ func (fr *frame) exec(ins ssa.Instruction) cont {
 		fn, args := fr.prepareCall(&ins.Call)
 		g.spawn(fr, fn, args)
 	case *ssa.MakeChan:
-		n, ok := fr.intBound(fr.get(ins.Size), 0, 1<<20)
+		n, ok := fr.intBoundT(fr.get(ins.Size), ins.Size.Type(), 0, 1<<20)
 		if !ok {
 			fr.runtimePanic("makechan: size out of range")
 		}
 		fr.set(ins, Value{K: KChan, R: newChan(n, ins.Type().Underlying().(*types.Chan).Elem())})
 	case *ssa.Alloc:
 		cell := new(Value)
+		if ins.Heap {
+			g.p.allocBytes += gcSizes.Sizeof(deref(ins.Type()))
+		}
 		*cell = zero(deref(ins.Type()))
 		fr.set(ins, mkPtr(cell))
 	case *ssa.MakeSlice:
-		ln, ok := fr.intBound(fr.get(ins.Len), 0, 1<<24)
+		ln, ok := fr.intBoundT(fr.get(ins.Len), ins.Len.Type(), 0, 1<<24)
 		if !ok {
 			fr.runtimePanic("makeslice: len out of range")
 		}
-		cp, ok := fr.intBound(fr.get(ins.Cap), ln, 1<<24)
+		cp, ok := fr.intBoundT(fr.get(ins.Cap), ins.Cap.Type(), ln, 1<<24)
 		if !ok {
 			fr.runtimePanic("makeslice: cap out of range")
 		}
-		fr.set(ins, mkSlice(makeSliceVals(ins.Type().Underlying().(*types.Slice).Elem(), ln, cp)))
+		et := ins.Type().Underlying().(*types.Slice).Elem()
+		g.p.allocBytes += int64(cp) * gcSizes.Sizeof(et)
+		fr.set(ins, mkSlice(makeSliceVals(et, ln, cp)))
 	case *ssa.MakeMap:
 		mt := ins.Type().Underlying().(*types.Map)
 		fr.set(ins, Value{K: KMap, R: newMap(mt.Key(), mt.Elem())})
@@ -684,7 +719,7 @@ func (fr *frame) sliceOp(ins *ssa.Slice) Value {
 	var ok bool
 	// Go checks: 0 <= lo <= hi <= max <= cap
 	if hasMax {
-		if m, ok = fr.intBound(mx, 0, cp); !ok {
+		if m, ok = fr.intBoundT(mx, ins.Max.Type(), 0, cp); !ok {
 			fr.runtimePanic(fmt.Sprintf("slice bounds out of range [::%s] with capacity %d", sv(mx), cp))
 		}
 	}
@@ -696,12 +731,12 @@ func (fr *frame) sliceOp(ins *ssa.Slice) Value {
 		if hasMax {
 			top = m
 		}
-		if h, ok = fr.intBound(hi, 0, top); !ok {
+		if h, ok = fr.intBoundT(hi, ins.High.Type(), 0, top); !ok {
 			fr.runtimePanic(fmt.Sprintf("slice bounds out of range [:%s] with capacity %d", sv(hi), top))
 		}
 	}
 	if hasLo {
-		if l, ok = fr.intBound(lo, 0, h); !ok {
+		if l, ok = fr.intBoundT(lo, ins.Low.Type(), 0, h); !ok {
 			fr.runtimePanic(fmt.Sprintf("slice bounds out of range [%s:%d]", sv(lo), h))
 		}
 	}
